@@ -12,7 +12,8 @@ class C08:
     impl_script = 'impl_mode.py'
     rule = ("random well-bracketed histories (<= 12 steps quick, <= 30 thorough) over: enter/leave symbolic_mode, rule_mode, rule_mode(q), "
             "`with q:`; raise inside the innermost block; create / advance (yielding or exhausting) / close / drop (del + gc.collect) up to "
-            "three result iterators, at any point inside or outside any block; after EVERY step the mode variable, in_symbolic_mode(), the "
+            "three result iterators, and evaluate the(...) queries with one / no / several solutions (the exception handled on the spot), at any "
+            "point inside or outside any block; after EVERY step the mode variable, in_symbolic_mode(), the "
             "type a @symbol constructor returns, whether an operator on a variable is rejected, and the expression-stack depth are compared "
             "with the model and with the reference stack; non-trivial = the history advances an iterator inside a block and later leaves it")
     explanation = ("C08_confined / C08_block_restores / C08_outside are proved for all histories; the bracketing of An.evaluate is read from "
@@ -27,6 +28,10 @@ class C08:
         live = {}          # iterator -> number of rows delivered, or 'fresh'
         for _ in range(n):
             r = rng.random()
+            if rng.random() < 0.12:
+                # a the(...) query evaluated right here: one solution, or none / several with the exception handled on the spot
+                ops.append(['the', rng.choice(['one', 'none', 'many', 'many'])])
+                continue
             if r < 0.22:
                 ops.append(['enter', rng.choice(['query', 'query', 'rule', 'rule_q', 'with_q'])])
                 depth += 1
@@ -72,6 +77,8 @@ class C08:
                 o.append(f"OClose {op[1]}")
             elif k == 'drop':
                 o.append(f"ODrop {op[1]}")
+            elif k == 'the':
+                o.append(f"OThe {'false' if op[1] == 'one' else 'true'}")
         return f"Eval vm_compute in (run_mcase {n} [{'; '.join(o)}])."
 
     def split(self, s):
@@ -141,6 +148,8 @@ def normalise(ops):
             if op[1] in live:
                 del live[op[1]]
                 out.append(op)
+        elif k == 'the':
+            out.append(op)
     return out
 
 
